@@ -143,7 +143,7 @@ Proof. intros [ -> | [ -> | -> ] ]; vm_compute; repeat split; reflexivity. Qed.
 Theorem corr_implies_ok c : UM.corr c = true -> ok c = true.
 Proof.
   unfold UM.corr, ok. set (o := c_obs c). intros H.
-  apply andb_true_iff in H as [H Hm]. apply andb_true_iff in H as [Hu Hi]. rewrite Hu. cbn [andb].
+  apply andb_true_iff in H as [H Hm]. apply andb_true_iff in H as [Hu Hi]. apply andb_true_iff in Hu as [Hu _]. rewrite Hu. cbn [andb].
   apply (proj1 (list_eqb_eq Bool.eqb (fun a b => conj (fun E => proj1 (Bool.eqb_true_iff a b) E) (fun E => proj2 (Bool.eqb_true_iff a b) E)) _ _)) in Hi.
   unfold model_res in Hm. destruct (c_decerr c) eqn:De.
   - (* the decoder failed *)
